@@ -4,6 +4,7 @@
    `Bug site` when its precondition fails (Parse/Types.v).  C01 for the model is
    the statement that no decoder or accessor ever returns `Bug`, and that every
    window handed back lies inside the input.  Statements only. *)
+From EP Require Parse.GenAccessOk.   (* the field accessors, re-translated from the Rust source on every run (Gen/Accessors.v), equal the hand models the theorems below are about *)
 From EP Require Parse.ConstsOk.
 From EP Require Import Base.Bytes Parse.Types Parse.Slices Parse.Cursor Parse.View
   Parse.WireSpec Parse.StrictProofs.
